@@ -673,7 +673,9 @@ func (c *Conn) reconnect(ctx context.Context) error {
 	}
 	c.wireConn = res
 	if !c.state.CompareAndSwap(connStatusReconnecting, connStatusConnected) {
-		panic(errors.Errorf("unexpected error: expected reconnecting but %v", c.state.current))
+		// Close was called while the redial was in progress: give the new connection up
+		res.Close()
+		return errors.ErrConnectionClosed
 	}
 	return nil
 }
